@@ -1537,36 +1537,44 @@ class Interp:
         return And(*out) if which == "all" else Or(*out)
 
     def ex_ListComp(self, e, env):
-        if len(e.generators) != 1:
-            raise Unsupported("nested comprehension", e)
         g = e.generators[0]
-        it = self.eval(g.iter, env)
-        if isinstance(it, (SymList, SymRange, SymZip, SymEnum)):
-            if g.ifs:
-                raise Unsupported("filtering comprehension over symbolic list", e)
-            j = z3.Int(f"j!comp{e.lineno}_{e.col_offset}")
-            n, elem = self._elem_at(it, j, e)
-            sub = Env(parent=env)
-            self.assign(g.target, elem, sub)
-            n_pc = len(self.ctx.pc)
-            self.ctx.pc.append(z3.And(0 <= j, j < n))  # obligations raised by the element expression hold for every j in range
-            try:
-                body = lift(self.eval(e.elt, sub))
-            finally:
-                del self.ctx.pc[n_pc:n_pc + 1]
-            return SymList(self.ctx, "comp", body.sort(), length=n, arr=z3.Lambda([j], body))
-        seq = self._concrete_iter(it, e)
+        if len(e.generators) == 1:
+            it = self.eval(g.iter, env)
+            if isinstance(it, (SymList, SymRange, SymZip, SymEnum)):
+                if g.ifs:
+                    raise Unsupported("filtering comprehension over symbolic list", e)
+                j = z3.Int(f"j!comp{e.lineno}_{e.col_offset}")
+                n, elem = self._elem_at(it, j, e)
+                sub = Env(parent=env)
+                self.assign(g.target, elem, sub)
+                n_pc = len(self.ctx.pc)
+                self.ctx.pc.append(z3.And(0 <= j, j < n))  # obligations raised by the element expression hold for every j in range
+                try:
+                    body = lift(self.eval(e.elt, sub))
+                finally:
+                    del self.ctx.pc[n_pc:n_pc + 1]
+                return SymList(self.ctx, "comp", body.sort(), length=n, arr=z3.Lambda([j], body))
         out = []
+        self._comp_rec(e.generators, 0, env, lambda sub: out.append(self.eval(e.elt, sub)), e)
+        return out
+
+    def _comp_rec(self, gens, idx, env, emit, node):
+        """Nested generators over concrete iterables (symbolic `if` conditions fork)."""
+        if idx == len(gens):
+            emit(env)
+            return
+        g = gens[idx]
+        seq = self._concrete_iter(self.eval(g.iter, env), node)
         for x in seq:
             sub = Env(parent=env)
             self.assign(g.target, x, sub)
             keep = And(*[self.truth(self.eval(c, sub)) for c in g.ifs])
             if isinstance(keep, bool):
-                if keep:
-                    out.append(self.eval(e.elt, sub))
-            elif self.ctx.branch(keep, f"compif@{e.lineno}"):
-                out.append(self.eval(e.elt, sub))
-        return out
+                if not keep:
+                    continue
+            elif not self.ctx.branch(keep, f"compif@{node.lineno}"):
+                continue
+            self._comp_rec(gens, idx + 1, sub, emit, node)
 
     def ex_GeneratorExp(self, e, env):
         return self.ex_ListComp(e, env)
@@ -1575,24 +1583,15 @@ class Interp:
         return tuple(self.ex_ListComp(e, env))
 
     def ex_DictComp(self, e, env):
-        if len(e.generators) != 1:
-            raise Unsupported("nested comprehension", e)
-        g = e.generators[0]
-        seq = self._concrete_iter(self.eval(g.iter, env), e)
         out = {}
-        for x in seq:
-            sub = Env(parent=env)
-            self.assign(g.target, x, sub)
-            keep = And(*[self.truth(self.eval(c, sub)) for c in g.ifs])
-            if isinstance(keep, bool):
-                if not keep:
-                    continue
-            elif not self.ctx.branch(keep, f"compif@{e.lineno}"):
-                continue
+
+        def emit(sub):
             k = self.eval(e.key, sub)
             if not is_concrete(k):
                 raise Unsupported("dict comprehension with symbolic key", e)
             out[k] = self.eval(e.value, sub)
+
+        self._comp_rec(e.generators, 0, env, emit, e)
         return out
 
     def ex_Yield(self, e, env):
@@ -1684,6 +1683,13 @@ class Interp:
                 ctx.mutated(obj)
                 return obj.setdefault(args[0], args[1] if len(args) > 1 else None)
             raise Unsupported(f"dict method {name}", node)
+        if isinstance(obj, str) and name == "join" and len(args) == 1 and isinstance(args[0], (list, tuple)) and not is_concrete(args[0]):
+            parts = []
+            for i, x in enumerate(args[0]):
+                if i:
+                    parts.append(z3.StringVal(obj))
+                parts.append(lift(x))
+            return z3.Concat(*parts) if len(parts) > 1 else (parts[0] if parts else "")
         if isinstance(obj, str) and all(is_concrete(a) for a in args) and not kwargs:
             if name in STR_METHODS:
                 return getattr(obj, name)(*args)
